@@ -21,7 +21,10 @@
 #include <frg/logging.hpp>
 #include "../engine/verif.hpp"
 
-const char *verif_harness = "printf_diff";
+#ifndef VERIF_HARNESS_NAME
+#define VERIF_HARNESS_NAME "printf_diff"
+#endif
+const char *verif_harness = VERIF_HARNESS_NAME;
 using namespace verif;
 
 namespace {
